@@ -73,6 +73,17 @@ func c13KVSpec(state, op string) (string, string) {
 		} else {
 			res = "notfound"
 		}
+	case "query":
+		// every entry carries the tag: the keys present, sorted
+		var ks []string
+		for k := range m {
+			ks = append(ks, k)
+		}
+		sort.Strings(ks)
+		res = strings.Join(ks, "+")
+		if res == "" {
+			res = "-"
+		}
 	}
 	var ks []string
 	for k, v := range m {
@@ -127,6 +138,9 @@ func c13PickupSpec(state, op string) (string, string) {
 	case "add":
 		q = append(q, f[1])
 		return strings.Join(q, ","), "ok"
+	case "pickf":
+		// the delivery fails: nothing leaves the inbox
+		return state, "fail"
 	default:
 		n, _ := strconv.Atoi(f[1])
 		if n > len(q) {
@@ -220,12 +234,15 @@ func c13KVExec(p spi.Provider) (c13Exec, error) {
 	if err != nil {
 		return nil, err
 	}
+	if err := p.SetStoreConfig("c13", spi.StoreConfiguration{TagNames: []string{"t"}}); err != nil {
+		return nil, err
+	}
 	return func(op string) string {
 		f := strings.Split(op, " ")
 		switch f[0] {
 		case "cfg":
 			// provider level calls next to the data operations (no effect on the data: the sequential result is "ok")
-			_ = p.SetStoreConfig("c13", spi.StoreConfiguration{TagNames: []string{"t" + f[1]}})
+			_ = p.SetStoreConfig("c13", spi.StoreConfiguration{TagNames: []string{"t", "t" + f[1]}})
 			_, _ = p.GetStoreConfig("c13")
 			_ = p.GetOpenStores()
 			if _, e := p.OpenStore("c13"); e != nil {
@@ -238,8 +255,34 @@ func c13KVExec(p spi.Provider) (c13Exec, error) {
 			_, _ = p.GetStoreConfig("c13-side-" + f[1])
 			_ = p.GetOpenStores()
 			return "ok"
+		case "query":
+			it, err := st.Query("t")
+			if err != nil {
+				return "err"
+			}
+			var ks []string
+			for {
+				more, err := it.Next()
+				if err != nil {
+					return "err"
+				}
+				if !more {
+					break
+				}
+				k, err := it.Key()
+				if err != nil {
+					return "err"
+				}
+				ks = append(ks, k)
+			}
+			_ = it.Close()
+			sort.Strings(ks)
+			if len(ks) == 0 {
+				return "-"
+			}
+			return strings.Join(ks, "+")
 		case "put":
-			if err := st.Put(f[1], []byte(f[2])); err != nil {
+			if err := st.Put(f[1], []byte(f[2]), spi.Tag{Name: "t"}); err != nil {
 				return "err"
 			}
 			return "ok"
@@ -265,7 +308,9 @@ func c13Target(name string) (c13Exec, c13Spec, func(r *Rng, g int) string, error
 	kvGen := func(r *Rng, g int) string {
 		// few keys and many deletes: contention, and cache misses for the wrappers that fill on read
 		k := r.Pick([]string{"k1", "k1", "k2", "k2", "k3"})
-		switch r.N(8) {
+		switch r.N(9) {
+		case 8:
+			return "query"
 		case 7:
 			return fmt.Sprintf("cfg %d", r.N(3))
 		case 0, 1:
@@ -328,11 +373,20 @@ func c13Target(name string) (c13Exec, c13Spec, func(r *Rng, g int) string, error
 		return exec, c13SessionSpec, gen, nil
 	case "pickup":
 		// the batch handed to the outbound dispatcher carries the id of the request (@id): results are keyed by it
-		var batches sync.Map
+		var batches, failing sync.Map
 		out := &mockdispatcher.MockOutbound{ValidateSendToDID: func(msg interface{}, _, _ string) error {
 			b, err := json.Marshal(msg)
 			if err != nil {
 				return err
+			}
+			var hdr struct {
+				ID string `json:"@id"`
+			}
+			if json.Unmarshal(b, &hdr) == nil {
+				if _, bad := failing.Load(hdr.ID); bad {
+					runtime.Gosched()
+					return fmt.Errorf("injected delivery fault")
+				}
 			}
 			var m struct {
 				ID   string `json:"@id"`
@@ -366,6 +420,12 @@ func c13Target(name string) (c13Exec, c13Spec, func(r *Rng, g int) string, error
 			}
 			n, _ := strconv.Atoi(f[1])
 			id := fmt.Sprintf("req-%d", atomic.AddInt64(&seq, 1))
+			if f[0] == "pickf" {
+				failing.Store(id, true)
+				_ = svc.VerifHandleBatchPickup(c14Msg(map[string]interface{}{"@id": id, "@type": messagepickup.BatchPickupMsgType,
+					"batch_size": n}), "did:me", "did:r")
+				return "fail"
+			}
 			err := svc.VerifHandleBatchPickup(c14Msg(map[string]interface{}{"@id": id, "@type": messagepickup.BatchPickupMsgType,
 				"batch_size": n}), "did:me", "did:r")
 			if err != nil {
@@ -381,6 +441,9 @@ func c13Target(name string) (c13Exec, c13Spec, func(r *Rng, g int) string, error
 		gen := func(r *Rng, g int) string {
 			if r.N(2) == 0 {
 				return fmt.Sprintf("add m%d", atomic.AddInt64(&ctr, 1))
+			}
+			if r.N(4) == 0 {
+				return "pickf " + r.Pick([]string{"1", "9"})
 			}
 			return "pick " + r.Pick([]string{"1", "1", "9"})
 		}
